@@ -14,6 +14,9 @@ from .poly import RF, Poly, rf, strip_uid
 from .scan import _callable_def, scan_call_sites
 
 
+BIND = {}      # id(accumulator def) -> bindings of the parameters of the shared builder it is nested in
+
+
 def _acc_of(ctx, rel, name):
     m, fn = ctx.function(rel, name)
     for mm, call, seed in scan_call_sites(ctx):
@@ -21,6 +24,28 @@ def _acc_of(ctx, rel, name):
             acc = call.args[0] if call.args else None
             accfn = _callable_def(ctx, m, acc, fn)
             return m, fn, call, accfn, seed
+    # the operator delegates to a shared builder (extremum(operator.lt, key_mapper, reduce)): a repository function that
+    # contains the scan call; its parameters are bound by the operator's call
+    from ..model import _bind_call, _top_function
+    prog = ctx.program
+    for n in ast.walk(fn):
+        if not isinstance(n, ast.Call):
+            continue
+        dn = dotted_name(n.func)
+        ref = prog.resolve_dotted(m, dn) if dn else None
+        if ref is None or ref[0] != "def":
+            continue
+        hm, H = ref[1], ref[2]
+        for mm, call, seed in scan_call_sites(ctx):
+            if mm is hm and _top_function(hm, call) is H and hm.enclosing_function(call) is H:
+                b = _bind_call(ctx.ex, m, n, hm, H, {}, {})
+                if b is None:
+                    continue
+                acc = call.args[0] if call.args else None
+                accfn = _callable_def(ctx, hm, acc, H)
+                if accfn is not None:
+                    BIND[id(accfn)] = b
+                return hm, H, call, accfn, seed
     raise AnalysisError("%s::%s no longer builds on rs.ops.scan" % (rel, name))
 
 
@@ -38,7 +63,7 @@ def _mapper_after(ctx, m, fn, call):
         return None
     k = args.index(call)
     if k + 1 < len(args) and isinstance(args[k + 1], ast.Call) and args[k + 1].args:
-        return _callable_def(ctx, m, args[k + 1].args[0], fn)
+        return _callable_def(ctx, m, args[k + 1].args[0], fn, anywhere=True)
     return None
 
 
@@ -52,7 +77,7 @@ def rule_nm1(ctx: Ctx) -> RuleResult:
     m, fn, call, acc, seed = _acc_of(ctx, "rxsci/math/sum.py", "sum")
     r.instances += 1
     A, I = ("arg", m.scopes[acc].params[0]), ("arg", m.scopes[acc].params[1])
-    for p in ctx.fn_paths(m, acc):
+    for p in ctx.fn_paths(m, acc, ctxb=BIND.get(id(acc))):
         r.paths += 1
         r.groups.add(("sum",))
         x = [e.result for e in p.trace if e.k == "ucall" and e.name == "key_mapper" and tuple(e.args) == (I,)]
@@ -64,7 +89,7 @@ def rule_nm1(ctx: Ctx) -> RuleResult:
     m, fn, call, acc, seed = _acc_of(ctx, "rxsci/math/mean.py", "mean")
     r.instances += 1
     A, I = ("arg", m.scopes[acc].params[0]), ("arg", m.scopes[acc].params[1])
-    for p in ctx.fn_paths(m, acc):
+    for p in ctx.fn_paths(m, acc, ctxb=BIND.get(id(acc))):
         r.paths += 1
         r.groups.add(("mean",))
         x = [e.result for e in p.trace if e.k == "ucall" and e.name == "key_mapper" and tuple(e.args) == (I,)]
@@ -79,9 +104,9 @@ def rule_nm1(ctx: Ctx) -> RuleResult:
     mp = _mapper_after(ctx, m, fn, call)
     if mp is None:
         raise AnalysisError("mean: the mapper that divides sum by count was not found")
-    MP = ("arg", m.scopes[mp].params[0])
+    MP = ("arg", ctx.module_of(mp).scopes[mp].params[0])
     okm = False
-    for p in ctx.fn_paths(m, mp):
+    for p in ctx.fn_paths(ctx.module_of(mp), mp):
         r.paths += 1
         v = p.value
         if v is not None and v != ("const", None):
@@ -95,7 +120,7 @@ def rule_nm1(ctx: Ctx) -> RuleResult:
         r.instances += 1
         A, I = ("arg", m.scopes[acc].params[0]), ("arg", m.scopes[acc].params[1])
         saw_new = saw_keep = False
-        for p in ctx.fn_paths(m, acc):
+        for p in ctx.fn_paths(m, acc, ctxb=BIND.get(id(acc))):
             r.paths += 1
             r.groups.add((name, len(r.groups)))
             x = [e.result for e in p.trace if e.k == "ucall" and e.name == "key_mapper"]
@@ -136,7 +161,7 @@ def rule_nm1(ctx: Ctx) -> RuleResult:
     K0 = RF(Poly.atom(strip_uid(("sub", A, ("const", 2)))))
     ONE = RF(Poly.const(1))
     saw_first = saw_update = False
-    for p in ctx.fn_paths(m, acc):
+    for p in ctx.fn_paths(m, acc, ctxb=BIND.get(id(acc))):
         r.paths += 1
         r.groups.add(("variance", len(r.groups)))
         x = [e.result for e in p.trace if e.k == "ucall" and e.name == "key_mapper"]
@@ -172,10 +197,10 @@ def rule_nm1(ctx: Ctx) -> RuleResult:
     mp = _mapper_after(ctx, m, fn, call)
     if mp is None:
         raise AnalysisError("variance: output mapper not found")
-    MP = ("arg", m.scopes[mp].params[0])
+    MP = ("arg", ctx.module_of(mp).scopes[mp].params[0])
     K = strip_uid(("sub", MP, ("const", 2)))
     S = strip_uid(("sub", MP, ("const", 1)))
-    for p in ctx.fn_paths(m, mp):
+    for p in ctx.fn_paths(ctx.module_of(mp), mp):
         r.paths += 1
         d = [e for e in p.trace if e.k == "decision"]
         small = None
@@ -209,9 +234,10 @@ def rule_nm1(ctx: Ctx) -> RuleResult:
     mp = _mapper_after(ctx, m, fn, call)
     if mp is None:
         raise AnalysisError("formal.variance: output mapper not found")
-    MP = ("arg", m.scopes[mp].params[0])
+    MP = ("arg", ctx.module_of(mp).scopes[mp].params[0])
     saw = False
-    for p in ctx.fn_paths(m, mp, inline=False):
+    moment_fns = set()
+    for p in ctx.fn_paths(ctx.module_of(mp), mp, inline=False):
         r.paths += 1
         v = p.value
         empty = [e for e in p.trace if e.k == "decision" and any(x[0] == "call" and x[1] == ("builtin", "len") for x in subterms(e.test))]
@@ -230,8 +256,16 @@ def rule_nm1(ctx: Ctx) -> RuleResult:
         saw = True
         vv = strip_uid(v) if v is not None else None
 
+        # the moment helper: the repository function the result is a call of
+        if vv is not None and vv[0] == "call" and vv[1][0] == "func":
+            moment_fn = vv[1]
+        else:
+            moment_fn = next((x[1] for x in (subterms(vv) if vv is not None else ()) if x[0] == "call" and x[1][0] == "func" and len(x[2]) == 3), None)
+        if moment_fn is not None:
+            moment_fns.add((moment_fn[2], moment_fn[1]))
+
         def is_moment(t, c, n):
-            return t[0] == "call" and t[1][0] == "func" and t[1][1].name == "_moment" and len(t[2]) == 3 and t[2][0] == MP and t[2][2] == ("const", n) and (c is None or t[2][1] == c)
+            return t[0] == "call" and t[1] == moment_fn and len(t[2]) == 3 and t[2][0] == MP and t[2][2] == ("const", n) and (c is None or t[2][1] == c)
         mean_t = ("call", vv[1], (MP, ("const", 0), ("const", 1))) if vv is not None and vv[0] == "call" else None
         good = vv is not None and is_moment(vv, None, 2) and is_moment(vv[2][1], ("const", 0), 1)
         raw = vv is not None and any(is_moment(x, ("const", 0), 2) for x in subterms(vv))
@@ -244,7 +278,9 @@ def rule_nm1(ctx: Ctx) -> RuleResult:
                             "the population variance must be the second moment about the mean, _moment(acc, _moment(acc, 0, 1), 2); it is %s" % (show(vv) if vv else None), p))
     r.ob(saw, fail(rel + "::variance._variance{paths}", m, mp, "no non-empty path found"))
     # _moment: sum((x[i] - c)**n) / len(x), as an explicit loop or as a comprehension over x
-    mm_, mf = ctx.function("rxsci/math/formal/__init__.py", "_moment")
+    if len(moment_fns) != 1:
+        raise AnalysisError("formal.variance: the moment helper called by the output mapper was not identified (%d candidates)" % len(moment_fns))
+    mm_, mf = next(iter(moment_fns))
     r.instances += 1
     okm = False
     X, C, N = ("arg", mm_.scopes[mf].params[0]), ("arg", mm_.scopes[mf].params[1]), ("arg", mm_.scopes[mf].params[2])
@@ -279,9 +315,9 @@ def rule_nm1(ctx: Ctx) -> RuleResult:
                     (t == ("binop", "Pow", ("binop", "Sub", lv, C), N) and its[0].iter == X)
                 okterm = okterm and summed == strip_uid(apps[0].base)
         okm = okm or (okterm and okret)
-        r.ob(okterm and okret, fail("rxsci/math/formal/__init__.py::_moment", mm_, mf,
+        r.ob(okterm and okret, fail("%s::%s" % (mm_.relpath, mf.name), mm_, mf,
                                     "_moment must be sum((x[i] - c) ** n) / len(x); it accumulates %s and returns %s" % (show(shown) if shown else None, show(v)), p))
-    r.ob(okm, fail("rxsci/math/formal/__init__.py::_moment{paths}", mm_, mf, "the moment formula was not found"))
+    r.ob(okm, fail("%s::%s{paths}" % (mm_.relpath, mf.name), mm_, mf, "the moment formula was not found"))
     # ---------------- stddev = sqrt(variance) ------------------------------------------
     for rel, inner in (("rxsci/math/stddev.py", "rxsci.math.variance.variance"), ("rxsci/math/formal/stddev.py", "rxsci.math.formal.variance.variance")):
         m, fn = ctx.function(rel, "stddev")
@@ -301,9 +337,10 @@ def rule_nm1(ctx: Ctx) -> RuleResult:
         if var_call is not None:
             mp = _mapper_after(ctx, m, fn, var_call)
             if mp is not None:
-                A0 = ("arg", m.scopes[mp].params[0])
+                mpm = ctx.module_of(mp)
+                A0 = ("arg", mpm.scopes[mp].params[0])
                 rets = []
-                for p in ctx.fn_paths(m, mp):
+                for p in ctx.fn_paths(mpm, mp):
                     r.paths += 1
                     if p.value is not None:
                         rets.append(strip_uid(p.value))
